@@ -29,9 +29,9 @@ type colDef struct {
 type opT struct {
 	Kind   string   `json:"k"`
 	T      string   `json:"t,omitempty"`
-	U      string   `json:"u,omitempty"`   // second name (rename target, index/fk/check/view/trigger/proc name, parent)
-	C      string   `json:"c,omitempty"`   // column
-	C2     string   `json:"c2,omitempty"`  // new column name / position anchor
+	U      string   `json:"u,omitempty"`  // second name (rename target, index/fk/check/view/trigger/proc name, parent)
+	C      string   `json:"c,omitempty"`  // column
+	C2     string   `json:"c2,omitempty"` // new column name / position anchor
 	Cols   []string `json:"cols,omitempty"`
 	PCols  []string `json:"pcols,omitempty"`
 	Defs   []colDef `json:"defs,omitempty"`
@@ -309,8 +309,8 @@ func query(s *eng.S, q string, f func(r []interface{}) rowT) listing {
 
 type obsT struct {
 	Tables, Columns, Statistics, KCU, TCons, Refs, Checks, Views, Routines, Triggers listing
-	ShowTables, ShowFullTables, ShowTriggers                                    listing
-	ShowColumns, ShowIndexes                                                    map[string]listing
+	ShowTables, ShowFullTables, ShowTriggers                                         listing
+	ShowColumns, ShowIndexes                                                         map[string]listing
 }
 
 var tableUniverse = []string{"t0", "t1", "t2", "t3"}
@@ -390,7 +390,7 @@ func observe(s *eng.S) obsT {
 	return o
 }
 
-func coqRow(r rowT) string    { return lib.CoqListOf(r, lib.CoqN) }
+func coqRow(r rowT) string     { return lib.CoqListOf(r, lib.CoqN) }
 func coqRows(l listing) string { return lib.CoqListOf(l.Rows, coqRow) }
 func coqORows(l listing) string {
 	return lib.CoqOpt(!l.Err, coqRows(l))
@@ -422,16 +422,13 @@ type rChk struct {
 	Val int
 }
 type rTbl struct {
-	Cols  []colDef
-	PK    []string
-	Idx   map[string]*rIdx
-	Chk   map[string]rChk
+	Cols []colDef
+	PK   []string
+	Idx  map[string]*rIdx
+	Chk  map[string]rChk
 	// causes of known defects, remembered to derive narrow signatures
 	pkGarbled      bool
-	fkFailIdx      bool
 	renamedWithIdx bool
-	chkLeak        bool
-	everIdx        bool // a secondary index was created on the table at some point
 }
 type rFK struct {
 	Table, Parent string
@@ -455,13 +452,10 @@ type refT struct {
 	Views  map[string]*rView
 	Trigs  []*rTrig // trigger names are not unique in the engine; the reference keeps what was accepted
 	Procs  map[string]int
-	// causes of known defects
-	failedCreateOverView bool
-	failedRenameFK       map[string]bool
 }
 
 func newRef() *refT {
-	return &refT{Tables: map[string]*rTbl{}, FKs: map[string]*rFK{}, Views: map[string]*rView{}, Procs: map[string]int{}, failedRenameFK: map[string]bool{}}
+	return &refT{Tables: map[string]*rTbl{}, FKs: map[string]*rFK{}, Views: map[string]*rView{}, Procs: map[string]int{}}
 }
 
 func idxOf(l []string, s string) int {
@@ -610,7 +604,6 @@ func (r *refT) apply(o opT) {
 			}
 		}
 	case "CreateIndex":
-		t.everIdx = true
 		t.Idx[o.U] = &rIdx{append([]string{}, o.Cols...), o.Uniq}
 	case "DropIndex":
 		delete(t.Idx, o.U)
@@ -623,7 +616,6 @@ func (r *refT) apply(o opT) {
 		t.PK = nil
 	case "AddFK":
 		if !t.hasIndexWithPrefix(o.Cols) {
-			t.everIdx = true
 			t.Idx[o.U] = &rIdx{append([]string{}, o.Cols...), false}
 		}
 		r.FKs[o.U] = &rFK{o.T, o.Parent, append([]string{}, o.Cols...), append([]string{}, o.PCols...)}
@@ -650,36 +642,6 @@ func (r *refT) apply(o opT) {
 		r.Procs[o.U] = o.Val
 	case "DropProc":
 		delete(r.Procs, o.U)
-	}
-}
-
-// rejected notes side conditions of a statement the engine refused (only to name the cause of a later disagreement).
-func (r *refT) rejected(o opT) {
-	if o.Kind == "CreateTable" && r.Views[o.T] != nil && r.Tables[o.T] == nil {
-		r.failedCreateOverView = true
-	}
-	if o.Kind == "RenameTable" && r.Tables[o.T] != nil && r.Tables[o.U] != nil {
-		for n, f := range r.FKs {
-			if f.Table == o.T || f.Parent == o.T {
-				r.failedRenameFK[n] = true
-			}
-		}
-	}
-	if o.Kind == "DropColumn" {
-		if t := r.Tables[o.T]; t != nil {
-			for _, k := range t.Chk {
-				if k.Col == o.C {
-					t.chkLeak = true
-				}
-			}
-		}
-	}
-	if o.Kind == "AddFK" {
-		if t := r.Tables[o.T]; t != nil {
-			if f := r.FKs[o.U]; f != nil && f.Table != o.T && t.everIdx && !t.hasIndexWithPrefix(o.Cols) {
-				t.fkFailIdx = true
-			}
-		}
 	}
 }
 
@@ -732,7 +694,8 @@ type failure struct{ sig, what string }
 
 // check evaluates the property on the observation alone: every listing shows exactly the objects of the reference
 // catalog with their current definitions, and SHOW agrees with information_schema.  Returns the first failure.
-func (r *refT) check(o obsT) *failure {
+// crossOnly: only the SHOW-vs-information_schema agreement (used at the statement where a history is cut).
+func (r *refT) check(o obsT, crossOnly bool) *failure {
 	// values (encoded names) occurring in the rows on which listing and catalog differ: a known cause is only
 	// blamed when the differing rows mention the object it concerns
 	var diffVals map[uint64]bool
@@ -742,22 +705,54 @@ func (r *refT) check(o obsT) *failure {
 				return "pk-garbled/rename-column-in-composite-pk"
 			}
 		}
-		for n, t := range r.Tables {
-			if t.fkFailIdx && diffVals[enc(n)] {
-				return "failed-add-fk/name-taken-in-other-table/leaves-index"
-			}
-		}
-		for n, t := range r.Tables {
-			if t.chkLeak && diffVals[enc(n)] {
-				return "failed-drop-column/drops-check-constraints"
-			}
-		}
-		for n := range r.failedRenameFK {
-			if diffVals[enc(n)] {
-				return "failed-rename-table/target-exists/rewrites-foreign-keys"
-			}
-		}
 		return dflt
+	}
+	cross := func() *failure {
+		// cross-consistency: SHOW COLUMNS / SHOW INDEXES against information_schema for every existing table
+		for _, n := range sortedKeys(r.Tables) {
+			sc, si := o.ShowColumns[n], o.ShowIndexes[n]
+			if sc.Err || si.Err {
+				return &failure{"listing-error/SHOW COLUMNS-INDEXES", "SHOW COLUMNS / SHOW INDEXES FROM " + n + " failed"}
+			}
+			var isCols, isStats []rowT
+			for _, row := range o.Columns.Rows {
+				if row[0] == enc(n) {
+					isCols = append(isCols, row)
+				}
+			}
+			sort.Slice(isCols, func(i, j int) bool { return isCols[i][2] < isCols[j][2] })
+			for _, row := range o.Statistics.Rows {
+				if row[0] == enc(n) {
+					isStats = append(isStats, row)
+				}
+			}
+			if len(isCols) != len(sc.Rows) {
+				return &failure{"mismatch/SHOW COLUMNS-vs-COLUMNS", fmt.Sprintf("%s: SHOW COLUMNS %v, COLUMNS %v", n, sc.Rows, isCols)}
+			}
+			for i, row := range sc.Rows {
+				ic := isCols[i]
+				if row[0] != ic[1] || row[1] != ic[4] || row[2] != ic[3] {
+					return &failure{"mismatch/SHOW COLUMNS-vs-COLUMNS", fmt.Sprintf("%s: SHOW COLUMNS %v, COLUMNS %v", n, row, ic)}
+				}
+				if row[3] != ic[5] {
+					kn := []string{"none", "PRI", "UNI", "MUL"}
+					diffVals = map[uint64]bool{enc(n): true}
+					return &failure{tableCause(fmt.Sprintf("column-key/show-%s/is-%s", kn[row[3]%4], kn[ic[5]%4])),
+						fmt.Sprintf("%s.%d: SHOW COLUMNS Key=%d, information_schema COLUMN_KEY=%d (0 none 1 PRI 2 UNI 3 MUL)", n, i+1, row[3], ic[5])}
+				}
+			}
+			if !sameKeys(keys(si.Rows, nil), keys(isStats, nil)) {
+				sig := "mismatch/SHOW INDEXES-vs-STATISTICS"
+				if r.Tables[n].renamedWithIdx && sameKeys(keys(si.Rows, []int{1, 2, 3, 4, 5}), keys(isStats, []int{1, 2, 3, 4, 5})) {
+					sig = "show-indexes/stale-table-name-after-rename-table"
+				}
+				return &failure{sig, fmt.Sprintf("%s: SHOW INDEXES %v, STATISTICS %v", n, si.Rows, isStats)}
+			}
+		}
+		return nil
+	}
+	if crossOnly {
+		return cross()
 	}
 	cmp := func(name string, got listing, proj []int, want []rowT, cause func(string) string) *failure {
 		diffVals = map[uint64]bool{}
@@ -786,12 +781,6 @@ func (r *refT) check(o obsT) *failure {
 		return nil
 	}
 	plain := func(s string) string { return s }
-	tabCause := func(d string) string {
-		if r.failedCreateOverView {
-			return "failed-create-table/view-of-same-name/creates-table"
-		}
-		return d
-	}
 
 	// tables and views
 	var wantTabs, wantTabNames []rowT
@@ -803,13 +792,13 @@ func (r *refT) check(o obsT) *failure {
 		wantTabs = append(wantTabs, rowT{enc(n), 2})
 		wantTabNames = append(wantTabNames, rowT{enc(n)})
 	}
-	if f := cmp("TABLES", o.Tables, nil, wantTabs, tabCause); f != nil {
+	if f := cmp("TABLES", o.Tables, nil, wantTabs, plain); f != nil {
 		return f
 	}
-	if f := cmp("SHOW FULL TABLES", o.ShowFullTables, nil, wantTabs, tabCause); f != nil {
+	if f := cmp("SHOW FULL TABLES", o.ShowFullTables, nil, wantTabs, plain); f != nil {
 		return f
 	}
-	if f := cmp("SHOW TABLES", o.ShowTables, nil, wantTabNames, tabCause); f != nil {
+	if f := cmp("SHOW TABLES", o.ShowTables, nil, wantTabNames, plain); f != nil {
 		return f
 	}
 	// columns of base tables: name, ordinal, nullability, type
@@ -983,48 +972,7 @@ func (r *refT) check(o obsT) *failure {
 		}
 		return f
 	}
-	// cross-consistency: SHOW COLUMNS / SHOW INDEXES against information_schema for every existing table
-	for _, n := range sortedKeys(r.Tables) {
-		sc, si := o.ShowColumns[n], o.ShowIndexes[n]
-		if sc.Err || si.Err {
-			return &failure{"listing-error/SHOW COLUMNS-INDEXES", "SHOW COLUMNS / SHOW INDEXES FROM " + n + " failed"}
-		}
-		var isCols, isStats []rowT
-		for _, row := range o.Columns.Rows {
-			if row[0] == enc(n) {
-				isCols = append(isCols, row)
-			}
-		}
-		sort.Slice(isCols, func(i, j int) bool { return isCols[i][2] < isCols[j][2] })
-		for _, row := range o.Statistics.Rows {
-			if row[0] == enc(n) {
-				isStats = append(isStats, row)
-			}
-		}
-		if len(isCols) != len(sc.Rows) {
-			return &failure{"mismatch/SHOW COLUMNS-vs-COLUMNS", fmt.Sprintf("%s: SHOW COLUMNS %v, COLUMNS %v", n, sc.Rows, isCols)}
-		}
-		for i, row := range sc.Rows {
-			ic := isCols[i]
-			if row[0] != ic[1] || row[1] != ic[4] || row[2] != ic[3] {
-				return &failure{"mismatch/SHOW COLUMNS-vs-COLUMNS", fmt.Sprintf("%s: SHOW COLUMNS %v, COLUMNS %v", n, row, ic)}
-			}
-			if row[3] != ic[5] {
-				kn := []string{"none", "PRI", "UNI", "MUL"}
-				diffVals = map[uint64]bool{enc(n): true}
-				return &failure{tableCause(fmt.Sprintf("column-key/show-%s/is-%s", kn[row[3]%4], kn[ic[5]%4])),
-					fmt.Sprintf("%s.%d: SHOW COLUMNS Key=%d, information_schema COLUMN_KEY=%d (0 none 1 PRI 2 UNI 3 MUL)", n, i+1, row[3], ic[5])}
-			}
-		}
-		if !sameKeys(keys(si.Rows, nil), keys(isStats, nil)) {
-			sig := "mismatch/SHOW INDEXES-vs-STATISTICS"
-			if r.Tables[n].renamedWithIdx && sameKeys(keys(si.Rows, []int{1, 2, 3, 4, 5}), keys(isStats, []int{1, 2, 3, 4, 5})) {
-				sig = "show-indexes/stale-table-name-after-rename-table"
-			}
-			return &failure{sig, fmt.Sprintf("%s: SHOW INDEXES %v, STATISTICS %v", n, si.Rows, isStats)}
-		}
-	}
-	return nil
+	return cross()
 }
 
 // ---------- generator ----------
@@ -1243,6 +1191,29 @@ func newEngine() *eng.S {
 	return e.Session()
 }
 
+// snapshot reads the catalog through a path independent of information_schema and of the SHOW statements under
+// test: the provider's table names and SHOW CREATE TABLE of every name of the table universe (columns, keys, foreign keys, checks).
+func snapshot(s *eng.S) string {
+	var sb strings.Builder
+	if db, err := s.E.Pro.Database(s.Ctx, s.E.DB); err == nil { // table names straight from the provider
+		names, _ := db.GetTableNames(s.Ctx)
+		sort.Strings(names)
+		sb.WriteString(strings.Join(names, ",") + "|")
+	}
+	for _, t := range tableUniverse {
+		r := s.Query("SHOW CREATE TABLE " + t)
+		if r.Err != nil {
+			sb.WriteString(t + ":-;")
+			continue
+		}
+		for _, row := range r.Rows {
+			sb.WriteString(fmt.Sprint(row...))
+		}
+		sb.WriteByte(';')
+	}
+	return sb.String()
+}
+
 // runCase executes a history.  ops == nil: generate n statements from r, interleaved with execution.
 func runCase(c *lib.Ctx, ops []opT, r *lib.RNG, n int) {
 	s := newEngine()
@@ -1250,6 +1221,8 @@ func runCase(c *lib.Ctx, ops []opT, r *lib.RNG, n int) {
 	var cs caseT
 	var steps []string
 	var fail *failure
+	cut := false
+	prevSnap := snapshot(s)
 	accepted := 0
 	kinds := map[string]bool{}
 	for i := 0; (ops != nil && i < len(ops)) || (ops == nil && i < n); i++ {
@@ -1273,33 +1246,27 @@ func runCase(c *lib.Ctx, ops []opT, r *lib.RNG, n int) {
 			if p, pv := lib.Recover(func() { ref.apply(o) }); p && fail == nil {
 				fail = &failure{"accepted-impossible-statement/" + o.Kind, "engine accepted `" + o.SQL() + "` which names an object the catalog does not have: " + pv}
 			}
-		} else {
-			ref.rejected(o)
 		}
 		ob := observe(s)
 		steps = append(steps, lib.CoqTuple(o.Coq(), lib.CoqBool(acc), ob.Coq()))
-		if fail == nil {
+		snap := snapshot(s)
+		if fail == nil && !cut {
+			// C43 is about the listings agreeing with the catalog as it IS.  A statement that panics, or that is rejected
+			// and nevertheless changes the catalog (seen independently through SHOW CREATE TABLE), is a DDL atomicity /
+			// crash defect outside this property: the reference can no longer follow, so the history is cut here
+			// (only SHOW-vs-information_schema agreement is still demanded at this statement).
 			if res.Panic != "" {
-				sig := "panic/" + o.Kind
-				if t := ref.Tables[o.T]; t != nil && len(t.Cols) == 0 {
-					sig = "panic/" + o.Kind + "/table-without-columns"
-				}
-				if o.Kind == "DropColumn" {
-					if t := ref.Tables[o.T]; t != nil && idxOf(t.PK, o.C) >= 0 {
-						sig = "panic/drop-column/primary-key-column"
-					} else if t != nil && len(t.PK) == 0 {
-						for _, ix := range t.Idx {
-							if ix.Uniq && idxOf(ix.Cols, o.C) >= 0 {
-								sig = "panic/drop-column/unique-index-column-of-keyless-table"
-							}
-						}
-					}
-				}
-				fail = &failure{sig, "statement panicked: " + o.SQL() + ": " + res.Panic}
-			} else if f := ref.check(ob); f != nil {
+				cut = true
+				c.Count("history-cut/panic/" + o.Kind)
+			} else if !acc && snap != prevSnap {
+				cut = true
+				c.Count("history-cut/rejected-statement-with-effect/" + o.Kind)
+			}
+			if f := ref.check(ob, cut); f != nil {
 				fail = &failure{f.sig, "after `" + o.SQL() + "`: " + f.what}
 			}
 		}
+		prevSnap = snap
 	}
 	key := ""
 	if accepted >= 3 && len(kinds) >= 2 {
